@@ -1,7 +1,7 @@
 (* Model of Shape and the Surface / SurfaceMut operations (src/surface.rs)
    over a backing vector, and the plain-matrix "window" semantics they are
    compared with.  Executable definitions only. *)
-From Coq Require Import List Arith Bool ZArith.
+From Coq Require Import List Arith Bool ZArith NArith.
 From SNT Require Import Surface.Bounds.
 Import ListNotations.
 
@@ -148,7 +148,60 @@ Section Ops.
                   | _, _ => None
                   end)
                (Some []) (positions (sh_height sh) (sh_width sh)).
+
+  (* SurfaceIter::nth / next at absolute index i: shape.nth(i) then data.get(offset) *)
+  Definition iter_at (sh : shape) (data : list A) (i : nat) : option A :=
+    match nth_pos sh i with
+    | Some (r, c) => nth_error data (offset sh r c)
+    | None => None
+    end.
+
+  (* SurfaceIter::position with the iterator at index i *)
+  Definition iter_position (sh : shape) (i : nat) : nat * nat :=
+    match nth_pos sh i with Some p => p | None => (sh_height sh, 0) end.
+
+  (* SurfaceIter::with_position: (position, item) pairs until next() returns None *)
+  Fixpoint pos_iter_from (fuel index : nat) (sh : shape) (data : list A) : list (nat * nat * A) :=
+    match fuel with
+    | O => []
+    | S f =>
+        match iter_at sh data index with
+        | Some x => (iter_position sh index, x) :: pos_iter_from f (S index) sh data
+        | None => []
+        end
+    end.
+  Definition pos_iter (sh : shape) (data : list A) : list (nat * nat * A) :=
+    pos_iter_from (S (sh_height sh * sh_width sh)) 0 sh data.
+
+  (* SurfaceMut::get_mut: same addressing as get *)
+  Definition get_mut (sh : shape) (data : list A) (r c : nat) : option A := get sh data r c.
+
+  (* SurfaceMut::set: debug_assert!(row < height), debug_assert!(col < width), then
+     mem::replace(&mut data[offset], item); None models a panic; the result is (old item, new data) *)
+  Definition set_at (sh : shape) (data : list A) (r c : nat) (x : A) : option (A * list A) :=
+    if (r <? sh_height sh) && (c <? sh_width sh) then
+      match nth_error data (offset sh r c), set_nth data (offset sh r c) x with
+      | Some old, Some d => Some (old, d)
+      | _, _ => None
+      end
+    else None.
+
+  (* SurfaceMut::insert with the index arithmetic `pos.row * self.width() + pos.col` in usize:
+     an overflow panics (debug profile), here or in the iterator's own `self.index += n + 1`;
+     otherwise skip `index` references of iter_mut, then zip *)
+  Definition insert_at (sh : shape) (data : list A) (r c : N) (items : list A) : option (list A) :=
+    let index := (r * N.of_nat (sh_width sh) + c)%N in
+    if (18446744073709551616 <=? index)%N then None
+    (* the iterator is advanced to `index`; the first next() then computes index + 1 *)
+    else if (index =? 18446744073709551615)%N && match items with [] => false | _ => true end then None
+    else
+      let offs := mut_offsets sh (length data) in
+      if (N.of_nat (length offs) <=? index)%N then Some data
+      else fold_left write_at (combine (skipn (N.to_nat index) offs) items) (Some data).
 End Ops.
+
+(* SurfaceMut::clear: every cell of the window becomes Default::default() *)
+Definition clear {A} (dflt : A) (sh : shape) (data : list A) : option (list A) := fill sh data dflt.
 
 (* ---------- specification: windows of a plain H x W matrix ---------- *)
 (* A window maps view coordinates to coordinates of the root matrix. *)
